@@ -422,11 +422,26 @@ def main():
         "violations": len(new_viols) + (1 if (broken and not new_viols) else 0),
     }
     if tier == "thorough" and proofs_ok and not replay:
-        rc, out = run(["coqchk", "-silent", "-o", "-R", ".", "Astits", "Astits." + P["props_file"].replace("/", ".").replace(".v", "")], cwd=COQ, timeout=3000)
-        ev["coverage"]["coqchk"] = {"exit": rc, "output_tail": out.strip().split("\n")[-15:]}
-        if rc:
-            lines.append("VIOLATION property=%s replay=%s no-failing-input-found" % (pid, "coqchk-rejected"))
-            status = 1
+        # independent re-check of the compiled property file and everything it depends on; its running time grows with
+        # the dependency cone (minutes to the better part of an hour), so it has its own limit and running out of time
+        # is reported as such, not as a rejection
+        limit = int(os.environ.get("VERIF_COQCHK_TIMEOUT", "5400"))
+        mod = "Astits." + P["props_file"].replace("/", ".").replace(".v", "")
+        t1 = time.time()
+        rc, out = run(["coqchk", "-silent", "-o", "-R", ".", "Astits", mod], cwd=COQ, timeout=limit)
+        tail = out.strip().split("\n")[-15:]
+        if rc == 124 and out.rstrip().endswith("TIMEOUT"):
+            ev["coverage"]["coqchk"] = {"exit": "not finished within %d s (VERIF_COQCHK_TIMEOUT)" % limit, "output_tail": tail}
+            lines.append("NOTE coqchk on %s did not finish within %d s; the proofs were checked by coqc only" % (mod, limit))
+        else:
+            ev["coverage"]["coqchk"] = {"exit": rc, "seconds": round(time.time() - t1), "output_tail": tail}
+            if rc:
+                rp = os.path.join(V, "replays", "%s-coqchk.json" % pid)
+                json.dump({"property": pid, "kind": "tie-broken",
+                           "no_longer_checks": [{"kind": "coqchk", "what": "coqchk rejects " + mod + ": " + " | ".join(tail[-5:])}],
+                           "replay_cmd": "cd coq && coqchk -silent -o -R . Astits " + mod}, open(rp, "w"), indent=1)
+                lines.append("VIOLATION property=%s replay=%s no-failing-input-found" % (pid, rp))
+                status = 1
     if not replay:
         json.dump(ev, open(os.path.join(V, "evidence", pid + ".json"), "w"), indent=1)
     print("%s tier=%s seed=%d: %d/%d theorems closed, %d cases, %d compared with the model, %d mismatches, %d oracle violations (%d known), %.1fs" % (
